@@ -31,7 +31,7 @@ import (
 )
 
 // Scenarios lists the scenario names.
-var Scenarios = []string{"relay", "aggregate", "rvesting", "adapters", "clients", "eth-pow", "bsc-search", "upgrade", "process-history"}
+var Scenarios = []string{"relay", "aggregate", "rvesting", "adapters", "clients", "eth-pow", "bsc-search", "upgrade", "process-history", "restart"}
 
 // RunScenario executes one scenario and returns its trace.
 func RunScenario(name string) []string {
@@ -76,6 +76,45 @@ func RunScenario(name string) []string {
 		bscSearch(&trace)
 	case "upgrade":
 		upgrade()
+	case "restart":
+		// a node that is restarted in the middle of a history (the application is re-opened on a copy of its database: nothing
+		// survives but the committed state) must execute the rest exactly as the node that kept running
+		sys := relay.New(relay.Config{Chains: 2, MaxSends: 8})
+		for _, op := range []string{"send A B erc20 3", "send B A native 1", "upd A B", "upd B A", "upd A B", "upd B A", "recv A>B#1 g1"} {
+			sys.Apply(op)
+		}
+		restarted := sys.Clone().(*relay.Sys)
+		rest := []string{"recv B>A#1 g1", "send A B erc20+callrevert 1", "upd A B", "upd B A", "upd A B", "upd B A", "ack A>B#1 g1", "recv A>B#2 g1", "ack B>A#1 g1", "send A B feeonly1 1"}
+		var kept, fresh []string
+		for _, c := range sys.World().Chains {
+			c.Trace = &kept
+		}
+		for _, c := range restarted.World().Chains {
+			c.Trace = &fresh
+		}
+		for _, op := range rest {
+			sys.Apply(op)
+		}
+		for _, op := range rest {
+			restarted.Apply(op)
+		}
+		trace = append(trace, kept...)
+		verdict := fmt.Sprintf("teleport_process_history same after a restart (%d lines)", len(kept))
+		for i := 0; i < len(kept) || i < len(fresh); i++ {
+			if i >= len(kept) || i >= len(fresh) || kept[i] != fresh[i] {
+				a, b := "(end)", "(end)"
+				if i < len(kept) {
+					a = kept[i]
+				}
+				if i < len(fresh) {
+					b = fresh[i]
+				}
+				verdict = fmt.Sprintf("teleport_process_history DIFFERS at line %d: node that kept running {%s} restarted node {%s}", i, a, b)
+				break
+			}
+		}
+		trace = append(trace, verdict)
+		world.GlobalTrace = &trace
 	case "process-history":
 		// the same histories twice in one process, each on fresh chains: the second replay must not see anything the first
 		// left behind in process memory (package-level variables, caches) — a node that has been running and a node that
